@@ -3,7 +3,7 @@
 PROPS = {
     "C02": {"units": ["U3", "U4", "U5", "U6a", "U6b", "U6c", "U7", "U2", "U9"], "min_obligations": 20,
             "note": "rewriting only adds instrumentation: shape/erasure/order contracts on every constructor and transform"},
-    "C03": {"units": ["U3", "U4", "U5", "U7", "U2"], "min_obligations": 10,
+    "C03": {"units": ["U3", "U4", "U5", "U7", "U2", "U6b"], "min_obligations": 10,
             "note": "hook receives true result and operands in order: mirror clauses (argument list == operands left in the wrapped expression)"},
     "C04": {"units": ["U4", "U5", "U6b", "U6c", "U2"], "min_obligations": 6,
             "note": "every enabled operation instrumented: expr_done postcondition of the dispatcher, NotModified-only-if-literal lemmas of the transforms; traversal (children reach the visitor) is the assumed swc contract"},
